@@ -22,8 +22,10 @@ import (
 
 var stdoutMu sync.Mutex
 
-// lines the in-process *server* logs (LEVEL|MMDD-hhmmss|...); they go to the server's log in a real deployment
-var serverLogLine = regexp.MustCompile(`(?m)^(FATAL|ERROR|WARN|INFO)\|\d{4}-\d{6}\|[^\n]*\n`)
+// lines the in-process *server* logs (LEVEL|MMDD-hhmmss|...); they go to the server's log in a real deployment.
+// Not anchored at a line start: when the file's last line is unterminated the server's log line directly
+// follows the client's last write (the content alphabet cannot produce this shape itself).
+var serverLogLine = regexp.MustCompile(`(FATAL|ERROR|WARN|INFO)\|\d{4}-\d{6}\|[^\n]*\n`)
 
 // captureStdout runs f with os.Stdout redirected into a buffer.
 func captureStdout(f func()) string {
